@@ -129,6 +129,21 @@ def generate(tier, seed):
             steps.append(Q_c4(c[0], c[1], c[2], c[3], r) if rnd.random() < 0.8 else Q_e(r))
         cases.append(case("twin", sp4, adapter_M(lines4), "-", steps))
         dist["ctx4"] += 1
+    # request values of DIFFERENT TYPE that print alike (the integer 42 and the string "42", true and "true"): the enforcer
+    # decides them differently (a stored value is a string), so they must not share a cached decision - asked in both orders,
+    # twice each, through the tuple form and the list form
+    dist["typed_lookalikes"] = 0
+    sp_t = "r=sub,obj,act;p=sub,obj,act;e=AO;m={%s}" % eq3()
+    lines_t = [["p", "p", "alice", "42", "read"], ["p", "p", "alice", "true", "read"], ["p", "p", "7", "data1", "read"]]
+    pairs_t = [(["alice", 42, "read"], ["alice", "42", "read"]), (["alice", True, "read"], ["alice", "true", "read"]),
+               ([7, "data1", "read"], ["7", "data1", "read"]), (["alice", -1, "read"], ["alice", "-1", "read"])]
+    for a, b2 in pairs_t:
+        for first, second in ((a, b2), (b2, a)):
+            for mid in ([], [A("p", "p", ["alice", "-1", "read"])]):
+                steps = [Q_et(first), Q_et(first), Q_et(second), Q_e([str(x) if not isinstance(x, bool) else "true" for x in second]), Q_et(second)] + mid + \
+                        [Q_et(first), Q_et(second), Q_et(first)]
+                cases.append(case("twin", sp_t, adapter_M(lines_t), "-", steps))
+                dist["typed_lookalikes"] += 1
     return {
         "cases": cases,
         "exhaustive": False,
